@@ -315,9 +315,18 @@ impl<'input> GrmtoolsSectionParser<'input> {
                                     end_pos,
                                 ));
                             }
-                            if let Ok((val, k)) = self.parse_setting(j) {
-                                vals.push(val);
-                                j = self.parse_ws(k);
+                            match self.parse_setting(j) {
+                                Ok((val, k)) => {
+                                    vals.push(val);
+                                    j = self.parse_ws(k);
+                                }
+                                Err(e) => {
+                                    // If there's no comma to skip over either, we can't make any
+                                    // progress: give up rather than looping forever.
+                                    if self.lookahead_is(",", j).is_none() {
+                                        return Err(e);
+                                    }
+                                }
                             }
                             if let Some(k) = self.lookahead_is(",", j) {
                                 j = k
